@@ -66,7 +66,7 @@ def _cases(draw, tier):
     if op == "outertan" and d >= 3:
         cap = 4      # symbolic division: a full d=3 layout was measured at 29 s per generated function
     case = {"cfg": cfg, "op": op, "wrapper": draw(st.integers(0, 3)) == 0}
-    classes = ["single", "sparse", "sparse", "gradeblock", "perm"]
+    classes = ["single", "sparse", "sparse", "gradeblock", "perm", "puregrade", "puregrade"]
     if op in ("sqrt", "pow0.5"):
         k = draw(st.integers(1, n - 1)) if n > 1 else 0
         el = {"0": str(draw(st.sampled_from([3, 4, 5, 7])))}
